@@ -25,7 +25,7 @@ ASSUMPTIONS = [
     'the [act] phase (which Exactly reports by phase and actor, without a line number) stderr must name [act] and show '
     'a source line of the act phase',
     'INTEGER is evaluated by Python eval inside Exactly: integer tokens come from a closed vocabulary (digits, + - * // % '
-    '( ), names a/None/True, quotes); no **, no shifts, no calls, no attribute access',
+    '( ), names a/None/True, quotes); ** only in three fixed bounded powers, no shifts, no calls, no attribute access',
     'programs are true/echo/cat/sh/the python interpreter with `-c pass`/a two-line home-made script; shell lines use '
     'echo/cat/exit with relative redirections; no absolute path and no `.`/`..` occurs in the vocabulary; all files a '
     'valid use needs exist - so nothing in a generated case can fail for a non-textual reason',
